@@ -645,8 +645,8 @@ func newC05World(r *Run, c *c05Case) (*c05World, error) {
 		if err != nil {
 			return nil, err
 		}
-		acctToks = append(acctToks, fmt.Sprintf("%d:%d:%d:%d", a.id,
-			c05Outpoint(w, acct.OutPoint), v, c05Out(w, out)))
+		acctToks = append(acctToks, fmt.Sprintf("%d:%d:%d:%d:%d", a.id,
+			c05Outpoint(w, acct.OutPoint), v, c05Out(w, out), acct.Expiry))
 
 		// our order: an ask of 1000 units spending from the account
 		kit := order.NewKit(a.nonce)
@@ -940,7 +940,7 @@ func (w *c05World) buildBatch(p *c05Prop) (*order.Batch, string, bool, error) {
 			}
 		}
 		batch.AccountDiffs = append(batch.AccountDiffs, diff)
-		diffToks = append(diffToks, fmt.Sprintf("%d:%s:%d:%s", a.id, newOp, diff.NewVersion, newOut))
+		diffToks = append(diffToks, fmt.Sprintf("%d:%s:%d:%s:%d", a.id, newOp, diff.NewVersion, newOut, diff.NewExpiry))
 	}
 	if p.id%2 == 0 {
 		tx.AddTxIn(auctIn)
@@ -1635,7 +1635,7 @@ func (w *c05World) rowTokens(pending *order.Batch, snap *clientdb.LocalBatchSnap
 				out = strconv.Itoa(c05Out(w, o))
 			}
 		}
-		rows = append(rows, fmt.Sprintf("%d:%d:%d:%s", a.id, c05Outpoint(w, st.OutPoint), st.Version, out))
+		rows = append(rows, fmt.Sprintf("%d:%d:%d:%s:%d", a.id, c05Outpoint(w, st.OutPoint), st.Version, out, st.Expiry))
 	}
 	return c05Csv(rows)
 }
